@@ -13,8 +13,8 @@ from vpbt.core import Collector, h64
 
 PID = "C14"
 RULE = (
-    "Cases: histories drawn by a Hypothesis RuleBasedStateMachine. Initial state: a closed CFG from closed_cfgs(max_n=9), flat or after "
-    "join_returns+restructure_loop (so that top-level predecessors include regions and branching synthetic blocks). Rules: insert_block and its "
+    "Cases: histories drawn by a Hypothesis RuleBasedStateMachine. Initial state: a closed CFG from closed_cfgs(max_n=9), flat, after "
+    "join_returns+restructure_loop or after the full pipeline (so that top-level predecessors include regions - also regions whose exiting block is again a region - and branching synthetic blocks). Rules: insert_block and its "
     "four typed wrappers with drawn predecessors P (1-3 top-level blocks) and successors S (non-empty subset of P's successors; S=[] only with exit "
     "blocks as predecessors), insert_block_and_control_blocks, join_returns, join_tails_and_exits (documented cardinalities). After every step the real "
     "top-level graph is compared with the arc-level model (names, classes, ordered successors, back edges, value tables), the hierarchy validator and "
@@ -48,7 +48,7 @@ def _mk_machine(col, max_n, raise_sig=None):
                 if raise_sig is not None and sig == raise_sig:
                     raise AssertionError(sig)
 
-        @initialize(g=gg.closed_cfgs(max_n=max_n, min_n=3), pre=st.sampled_from(["flat", "loop", "loop"]), style=st.sampled_from(["num", "bytecode"]))
+        @initialize(g=gg.closed_cfgs(max_n=max_n, min_n=3), pre=st.sampled_from(["flat", "loop", "loop", "branch"]), style=st.sampled_from(["num", "bytecode"]))
         def init(self, g, pre, style):
             self._apply(["init", gg.graph_to_json(gg.restyle(g, style)), pre])
 
